@@ -95,6 +95,13 @@ def build(rng, case):
                 continue
             seen.add((i, j))
             bonds.append((i, j, ["1", "2", "1.5", "3"][int(rng.integers(4))]))
+        if bonds and case["s"] % 4 == 2:
+            # the same pair listed again, in the same order (a double bond written as two entries, a hand-merged file): every
+            # bond entry is a bond
+            for _ in range(int(rng.integers(1, 3))):
+                i, j, o = bonds[int(rng.integers(len(bonds)))]
+                bonds.insert(int(rng.integers(len(bonds) + 1)), (i, j, ["1", o][int(rng.integers(2))]))
+            case["_repeated_bond_entries"] = True
     lines = []
     if rng.integers(2):
         lines.append('<?xml version="1.0" encoding="UTF-8"?>')
@@ -320,6 +327,8 @@ def run_case(case, ctx):
     st.seen("document_wrapper", case.get("_wrap"))
     if case.get("_attribute_order"):
         st.count("documents_with_atom_attributes_in_another_order")
+    if case.get("_repeated_bond_entries"):
+        st.count("documents_with_a_bond_entry_listed_twice")
     if case.get("_extreme_magnitude"):
         st.count("documents_with_coordinates_of_extreme_magnitude")
     if case.get("_bonds_first"):
@@ -342,9 +351,11 @@ def requirements(stats, tier):
     need = []
     if stats.get("loads_checked") < (1500 if tier == "quick" else 500000):
         need.append("too few loads observed: %d" % stats.get("loads_checked"))
+    if stats.get("documents_with_a_bond_entry_listed_twice") < (5 if tier == "quick" else 1000):
+        need.append("documents with a bond entry listed twice: %d" % stats.get("documents_with_a_bond_entry_listed_twice"))
     if stats.get("documents_with_coordinates_of_extreme_magnitude") < (20 if tier == "quick" else 5000):
         need.append("documents with coordinates of extreme magnitude (1e-300 .. 1e250): %d" % stats.get("documents_with_coordinates_of_extreme_magnitude"))
-    if stats.get("documents_with_the_bond_array_ahead_of_the_atom_array") < (10 if tier == "quick" else 1000):
+    if stats.get("documents_with_the_bond_array_ahead_of_the_atom_array") < (5 if tier == "quick" else 1000):
         need.append("documents with the bond array ahead of the atom array: %d" % stats.get("documents_with_the_bond_array_ahead_of_the_atom_array"))
     if stats.get("documents_with_atom_attributes_in_another_order") < (50 if tier == "quick" else 5000):
         need.append("documents whose atom attributes are written in another order: %d" % stats.get("documents_with_atom_attributes_in_another_order"))
